@@ -9,10 +9,25 @@ use std::sync::{
 use divan::verif::{api, event, Ev};
 use serde_json::Value;
 
-fn task(i: usize, panics: &[u64]) -> usize {
+/// A panic payload whose destructor panics as well (the pool documents how it
+/// treats those: the caller's is dropped only after all workers finished).
+struct Bomb;
+
+impl Drop for Bomb {
+    fn drop(&mut self) {
+        if !std::thread::panicking() {
+            panic!("scripted panic while dropping a panic payload");
+        }
+    }
+}
+
+fn task(i: usize, panics: &[u64], bomb0: bool) -> usize {
     event(Ev::new("task_begin").u("index", i as u128));
     if panics.contains(&(i as u64)) {
         event(Ev::new("task_panic").u("index", i as u128));
+        if bomb0 && i == 0 {
+            std::panic::panic_any(Bomb);
+        }
         panic!("scripted panic in task {i}");
     }
     event(Ev::new("task_end").u("index", i as u128));
@@ -34,13 +49,18 @@ pub fn body(sc: Arc<Value>) {
             .map(|a| a.iter().filter_map(|x| x.as_u64()).collect())
             .unwrap_or_default();
 
+        let bomb0 = bc["bomb0"].as_bool().unwrap_or(false);
         event(Ev::new("bcast_call").u("n", n as u128));
 
-        let slots: Vec<u8> = if use_broadcast {
+        // The broadcast itself may unwind (the caller's panic payload is
+        // dropped by the pool after the wait and its destructor may panic).
+        let attempt = std::panic::catch_unwind(std::panic::AssertUnwindSafe(|| -> Vec<u8> {
+        if use_broadcast {
             let flags: Vec<AtomicU8> = (0..=n).map(|_| AtomicU8::new(0)).collect();
+            let flags_ref = &flags;
             pool.broadcast(n, |i| {
-                let r = task(i, &panics);
-                flags[r].store(1, Ordering::Relaxed);
+                let r = task(i, &panics, bomb0);
+                flags_ref[r].store(1, Ordering::Relaxed);
             });
             flags.iter().map(|f| f.load(Ordering::Relaxed)).collect()
         } else {
@@ -51,7 +71,7 @@ pub fn body(sc: Arc<Value>) {
             } else {
                 &mut fresh
             };
-            pool.par_extend(v, n, |i| task(i, &panics));
+            pool.par_extend(v, n, |i| task(i, &panics, bomb0));
             v.iter()
                 .enumerate()
                 .map(|(i, x)| match x {
@@ -60,10 +80,16 @@ pub fn body(sc: Arc<Value>) {
                     None => 0,
                 })
                 .collect()
-        };
+        }
+        }));
 
-        let slots = slots.iter().map(|x| x.to_string()).collect::<Vec<_>>().join(",");
-        event(Ev::new("bcast_return").raw("slots", &format!("[{slots}]")));
+        match attempt {
+            Ok(slots) => {
+                let slots = slots.iter().map(|x| x.to_string()).collect::<Vec<_>>().join(",");
+                event(Ev::new("bcast_return").raw("slots", &format!("[{slots}]")));
+            }
+            Err(_) => event(Ev::new("bcast_unwound")),
+        }
     }
 
     if sc.get("drop_pool").and_then(|d| d.as_bool()).unwrap_or(true) {
